@@ -183,12 +183,12 @@ def glue_events(names: int, prefixes: int, datatypes: int, npfx: int, nnames: in
     nm = [f"n{j}" for j in range(nnames)]
     evs: list = []
     for p in pf:
-        for j in (0, 1):
+        for j in range(min(2, len(nm))):
             evs.append(("iri", p + nm[j]))
     for j in range(2, len(nm)):
         evs.append(("iri", pf[0] + nm[j]))
     if datatypes:
-        for i in range(datatypes + 1):
+        for i in range(datatypes + 2):  # two more than the table: consecutive evictions
             evs.append(("lit", f"http://p0/n{i}"))
     return evs
 
@@ -280,7 +280,7 @@ def run(ctx) -> None:
         sizes = {"name": range(1, 7), "datatype": range(1, 7), "prefix": range(1, 6)}
         cap1 = 400_000
         glue = [(8, 1, 1, 2, 2, 30000), (8, 2, 0, 3, 2, 30000), (8, 0, 2, 1, 2, 30000),
-                (8, 0, 0, 1, 10, 3000)]
+                (8, 0, 3, 1, 1, 30000), (8, 0, 0, 1, 10, 3000)]
         orbit_n = (1, 2, 3)
     else:
         sizes = {"name": range(1, 9), "datatype": range(1, 9), "prefix": range(1, 8)}
